@@ -129,6 +129,11 @@ func planC05(tier string, seed uint64) *Plan {
 		k++
 		groups = append(groups, &Group{Cfg: cfgs[i%len(cfgs)], Jobs: []*Job{{Scen: "c05", Seed: jobSeed(seed, k), Count: randomCount, TLS: "auto"}}})
 	}
+	pubJobs, pubCount := 1, 120
+	if tier == "thorough" {
+		pubJobs, pubCount = 4, 2500
+	}
+	groups = append(groups, randomPlan("c05_pub", seed+1, cfgs, pubJobs*4, pubCount, "auto")...)
 	p.Phases = []Phase{{Name: "enumerate+random", Groups: groups, Limit: 20 * time.Minute}}
 	return p
 }
@@ -153,16 +158,25 @@ func swarmCfgs(seed uint64, n int) []JobCfg {
 	return out
 }
 
+// randomPlan spreads jobsPerCfg*count seeded runs per configuration over chunks of at most 250
+// runs, each its own group, so that any worker slot can take any chunk (even load; a worker
+// process is bound to one configuration file).
 func randomPlan(scen string, seed uint64, cfgs []JobCfg, jobsPerCfg, count int, tls string) []*Group {
 	var groups []*Group
 	k := 0
+	const chunk = 250
 	for _, cfg := range cfgs {
-		g := &Group{Cfg: cfg}
 		for j := 0; j < jobsPerCfg; j++ {
 			k++
-			g.Jobs = append(g.Jobs, &Job{Scen: scen, Seed: jobSeed(seed, k), Count: count, TLS: tls})
+			base := jobSeed(seed, k)
+			for off := 0; off < count; off += chunk {
+				n := count - off
+				if n > chunk {
+					n = chunk
+				}
+				groups = append(groups, &Group{Cfg: cfg, Jobs: []*Job{{Scen: scen, Seed: base + uint64(off), Count: n, TLS: tls}}})
+			}
 		}
-		groups = append(groups, g)
 	}
 	return groups
 }
@@ -236,7 +250,9 @@ func planC09(tier string, seed uint64) *Plan {
 	if tier == "thorough" {
 		n, jobs, count = 32, 4, 3000
 	}
-	p.Phases = []Phase{{Name: "listings", Groups: randomPlan("c09", seed, swarmCfgs(seed, n), jobs, count, "auto")}}
+	groups := randomPlan("c09", seed, swarmCfgs(seed, n), jobs, count, "auto")
+	groups = append(groups, randomPlan("ui_keymap", seed+21, uiCfgs(seed+21, n/2, nil), 1, count/5, "stub")...)
+	p.Phases = []Phase{{Name: "listings", Groups: groups}}
 	return p
 }
 
@@ -280,21 +296,30 @@ func uiCfgs(seed uint64, n int, hooks [][]string) []JobCfg {
 func planC08(tier string, seed uint64) *Plan {
 	p := &Plan{
 		Level: "exploration",
-		Rule: "seeded UI sessions in racing pacing over generated towns: the subcommand goroutine, one goroutine per key press (bursts of 1-4), the 25 ms resize poller with size changes, open/feed/link/surroundings loaders and hook completions interleave under the seeded scheduler (it chooses who is granted the UI mutex, when each network segment, dial and hook completion happens, and what runs while a frame is being written); 0-2 network faults per session. Oracles: frame sink entered only by the holder of a mutex and never by two goroutines; no panic; at the end no mutex waiter, no unprocessed key. Thorough tier adds a -race build in parallel-release mode. Non-trivial = a run with >=2 concurrently enabled events; distinct = distinct (world tape, event order) fingerprint.",
+		Rule: "seeded UI sessions in racing pacing over generated towns: the subcommand goroutine, one goroutine per key press (bursts of 1-4), the 25 ms resize poller with size changes, open/feed/link/surroundings loaders and hook completions interleave under the seeded scheduler (it chooses who is granted the UI mutex, when each network segment, dial and hook completion happens, and what runs while a frame is being written); 0-2 network faults per session. Oracles: frame sink entered only by the holder of a mutex and never by two goroutines; no panic; at the end no mutex waiter, no unprocessed key. Both tiers add a -race build in parallel-release mode with random hold-back of events (secondary oracle). Non-trivial = a run with >=2 concurrently enabled events; distinct = distinct (world tape, event order) fingerprint.",
 	}
 	n, jobs, count := 16, 2, 40
 	if tier == "thorough" {
 		n, jobs, count = 32, 4, 600
 	}
 	p.Phases = []Phase{{Name: "racing-sessions", Groups: randomPlan("ui_race", seed, uiCfgs(seed, n, nil), jobs, count, "stub")}}
-	if tier == "thorough" {
-		groups := randomPlan("ui_race", seed+7, uiCfgs(seed+7, 16, nil), 2, 120, "stub")
+	{
+		rc, rj, rn := 16, 2, 60
+		if tier == "quick" {
+			rc, rj, rn = 16, 1, 8
+		}
+		groups := randomPlan("ui_race", seed+7, uiCfgs(seed+7, rc, nil), rj, rn, "stub")
 		for _, g := range groups {
 			for _, j := range g.Jobs {
-				j.Parallel = 3
+				j.Parallel = 6
 			}
 		}
-		p.Phases = append(p.Phases, Phase{Name: "race-detector", Race: true, Groups: groups, Limit: 30 * time.Minute})
+		ph := Phase{Name: "race-detector", Race: true, Groups: groups, Limit: 30 * time.Minute}
+		if tier == "race" {
+			p.Phases = []Phase{ph} // (internal: only the race-detector phase, for sensitivity tests)
+		} else {
+			p.Phases = append(p.Phases, ph)
+		}
 	}
 	return p
 }
@@ -372,6 +397,7 @@ func planC07(tier string, seed uint64) *Plan {
 	}
 	groups := randomPlan("ui_keymap", seed, uiCfgs(seed, n, nil), jobs, count, "stub")
 	groups = append(groups, randomPlan("ui_keymash", seed+9, uiCfgs(seed+9, n/2, nil), jobs, count/2, "stub")...)
+	groups = append(groups, randomPlan("ui_hook", seed+13, uiCfgs(seed+13, n/2, hookVariants), 1, count/2, "stub")...)
 	p.Phases = []Phase{{Name: "keymap-sessions", Groups: groups}}
 	return p
 }
